@@ -231,18 +231,20 @@ pub fn serialize(req: &J) -> J {
             if self.1 { s.serialize_str(self.0) } else { s.serialize_i32(7) }
         }
     }
-    struct Container { kind: String, els: Vec<El>, keys_ok: Vec<bool> }
+    struct Container { kind: String, els: Vec<El>, keys_ok: Vec<bool>, repeat: bool }
     const NAMES: [&str; 4] = ["a", "b", "c", "d"];
     impl Serialize for Container {
         fn serialize<S: Serializer>(&self, s: S) -> std::result::Result<S::Ok, S::Error> {
             let n = self.els.len();
+            let nm = |i: usize| if self.repeat { NAMES[0] } else { NAMES[i] };
             match self.kind.as_str() {
+                "collect_seq" => s.collect_seq(self.els.iter()),
                 "seq" => { let mut c = s.serialize_seq(Some(n))?; for e in &self.els { c.serialize_element(e)?; } c.end() }
                 "tuple" => { let mut c = s.serialize_tuple(n)?; for e in &self.els { c.serialize_element(e)?; } c.end() }
                 "tuple_struct" => { let mut c = s.serialize_tuple_struct("T", n)?; for e in &self.els { c.serialize_field(e)?; } c.end() }
                 "tuple_variant" => { let mut c = s.serialize_tuple_variant("E", 0, "T", n)?; for e in &self.els { c.serialize_field(e)?; } c.end() }
-                "map" => { let mut c = s.serialize_map(Some(n))?; for (i, e) in self.els.iter().enumerate() { c.serialize_key(&Key(NAMES[i], self.keys_ok[i]))?; c.serialize_value(e)?; } c.end() }
-                "struct" => { let mut c = s.serialize_struct("S", n)?; for (i, e) in self.els.iter().enumerate() { c.serialize_field(NAMES[i], e)?; } c.end() }
+                "map" => { let mut c = s.serialize_map(Some(n))?; for (i, e) in self.els.iter().enumerate() { c.serialize_key(&Key(nm(i), self.keys_ok[if self.repeat { 0 } else { i }]))?; c.serialize_value(e)?; } c.end() }
+                "struct" => { let mut c = s.serialize_struct("S", n)?; for (i, e) in self.els.iter().enumerate() { c.serialize_field(nm(i), e)?; } c.end() }
                 "struct_variant" => { let mut c = s.serialize_struct_variant("E", 0, "S", n)?; for (i, e) in self.els.iter().enumerate() { c.serialize_field(NAMES[i], e)?; } c.end() }
                 other => Err(S::Error::custom(format!("unknown kind {other}"))),
             }
@@ -250,7 +252,7 @@ pub fn serialize(req: &J) -> J {
     }
     let els: Vec<El> = req["elems"].as_array().unwrap().iter().map(|e| El(e["ok"].as_i64())).collect();
     let keys_ok: Vec<bool> = req["keys_ok"].as_array().map(|a| a.iter().map(|b| b.as_bool().unwrap_or(true)).collect()).unwrap_or_else(|| vec![true; els.len()]);
-    let c = Container { kind: req["kind"].as_str().unwrap_or("").to_string(), els, keys_ok };
+    let c = Container { kind: req["kind"].as_str().unwrap_or("").to_string(), els, keys_ok, repeat: req["repeat_key"].as_bool().unwrap_or(false) };
     match c.serialize(reval::value::ser::ValueSerializer) {
         Ok(v) => json!({"ok": jvalue(&v)}),
         Err(Error::ValueSerializationError(m)) if m.contains("element") => json!({"err": "element"}),
